@@ -89,4 +89,9 @@ example : (run 4 (Sys.init 0 0 [.lcloser]) [.arriveBegin, .grant 0, .arriveEnd])
     ∧ (run 4 (Sys.init 0 0 [.lcloser]) [.arriveBegin, .grant 0, .arriveEnd, .grant 0]).acceptQ = []
     ∧ (run 4 (Sys.init 0 0 [.lcloser]) [.arriveBegin, .grant 0, .arriveEnd, .grant 0]).sockClosed = true := by decide
 
+-- a connection accepted during the phase and closed by its client: with the listener still open the
+-- socket stays open; once the listener is closed too it is closed
+example : (run 4 (Sys.init 0 1 [.acceptor, .acloser 0]) [.grant 0, .grant 0, .grant 1, .grant 1]).sockClosed = false
+    ∧ (run 4 (Sys.init 0 1 [.acceptor, .acloser 0, .lcloser]) [.grant 0, .grant 0, .grant 1, .grant 1, .grant 2, .grant 2, .grant 2]).sockClosed = true := by decide
+
 end TV.Props.C12
